@@ -4,8 +4,8 @@ open BinNums
 module SS = Stdlib.String
 module LL = Stdlib.List
 
-type st = (coq_N, coq_N Script.pstate) McSys.mcstate
-type sys = (coq_N, coq_N Script.pstate) McSys.mcsys
+type st = (coq_N, coq_N Store.store, coq_N Script.pstate) McSys.mcstate
+type sys = (coq_N, coq_N Store.store, coq_N Script.pstate) McSys.mcsys
 
 (* ---------- canonical text of values (must match harness/src/canon.rs character by character) ---------- *)
 let sn = string_of_n
@@ -157,7 +157,7 @@ let find_proc (s : st) (p : coq_N) : (coq_N, coq_N Script.pstate) Log.pentry opt
 let len_n l = LL.length l
 let noevents (s : st) : bool = match Store.is_empty s.McSys.st_events with Util.Ok b -> b | Util.Panic _ -> false
 
-let mk_preds (ps : predspec) : (coq_N, coq_N Script.pstate) McRun.preds =
+let mk_preds (ps : predspec) : (coq_N, coq_N Store.store, coq_N Script.pstate) McRun.preds =
   let ios = int_of_string in
   let outbox_len s p = match find_proc s (n_of_string p) with Some pe -> len_n pe.Log.pe_outbox | None -> -1 in
   let hist_len s p = match find_proc s (n_of_string p) with Some pe -> len_n pe.Log.pe_state.Script.ps_hist | None -> -1 in
@@ -234,7 +234,7 @@ let run (sc : scenario) : string =
   let show_state (tag : string) (s : st) =
     if !verbose then add (Printf.sprintf "%s %s\n" tag (c_state s))
     else add (Printf.sprintf "%s %s %s %s\n" tag (sn s.McSys.st_depth) (fnv (c_state_core s)) (fnv (c_trace s.McSys.st_trace))) in
-  let report (res : ((sys * (coq_N, coq_N Script.pstate) McRun.mcresult) * st Search.sstate) Util.result) =
+  let report (res : ((sys * (coq_N, coq_N Store.store, coq_N Script.pstate) McRun.mcresult) * st Search.sstate) Util.result) =
     match res with
     | Util.Panic _ -> add "RESULT PANIC\n"
     | Util.Ok ((s', r), ss) ->
